@@ -235,6 +235,10 @@ enum Mutn {
     KeyUnknown,
     ProviderSecret,
     ExpiresValue,
+    /// one of the three authentication parameters of a presigned URL given twice, the second occurrence with another value
+    /// (0 = AWSAccessKeyId, 1 = Expires, 2 = Signature), placed after (false) or before (true) the signed one: at most one of
+    /// the two can be what was signed - there is no reading of such a URL under which every component is the signed one
+    PresignParamTwice(u8, bool),
     // not bound by the signature: verdict must not change
     EqOtherQueryAdded,
     EqOtherHeaderChanged,
@@ -265,6 +269,7 @@ impl Mutn {
             Mutn::KeyUnknown => "key-unknown",
             Mutn::ProviderSecret => "provider-secret",
             Mutn::ExpiresValue => "expires-value",
+            Mutn::PresignParamTwice(..) => "presign-parameter-twice-with-another-value",
             Mutn::EqOtherQueryAdded => "equiv:unlisted-query-added",
             Mutn::EqOtherHeaderChanged => "equiv:unsigned-header-changed",
             Mutn::EqHeaderOrder => "equiv:header-order",
@@ -288,6 +293,11 @@ fn mutations(r: &Req, b: &Base) -> Vec<Mutn> {
     let mut m = vec![Mutn::None, Mutn::AmzRepeatedSwapped, Mutn::Method, Mutn::Md5, Mutn::ContentType, Mutn::AmzAdded, Mutn::SubresAdded, Mutn::KeyOther, Mutn::KeyUnknown, Mutn::ProviderSecret, Mutn::EqOtherQueryAdded, Mutn::EqOtherHeaderChanged, Mutn::EqHeaderOrder];
     if b.presigned {
         m.push(Mutn::ExpiresValue);
+        for which in 0..3u8 {
+            for before in [false, true] {
+                m.push(Mutn::PresignParamTwice(which, before));
+            }
+        }
     } else {
         m.push(Mutn::DateValue);
     }
@@ -460,6 +470,23 @@ fn apply(mu: &Mutn, r: &mut Req, keys: &mut Vec<(String, String)>, b: &Base) -> 
             p[ei] = format!("Expires={}", EXPIRES + 1);
             set_q(r, &p);
         }
+        Mutn::PresignParamTwice(which, before) => {
+            let mut p = qparts(r);
+            let name = ["AWSAccessKeyId=", "Expires=", "Signature="][*which as usize];
+            let Some(i) = p.iter().position(|x| x.starts_with(name)) else { return false };
+            let other = match which {
+                0 => format!("AWSAccessKeyId={AK2}"),
+                // (a later time: the URL would live longer if this one were believed)
+                1 => format!("Expires={}", EXPIRES + 86400),
+                _ => "Signature=AAAAAAAAAAAAAAAAAAAAAAAAAAA%3D".to_owned(),
+            };
+            if *before {
+                p.insert(i, other);
+            } else {
+                p.push(other);
+            }
+            set_q(r, &p);
+        }
         Mutn::EqOtherQueryAdded => {
             let mut p = qparts(r);
             p.push("zzunlisted=1".to_owned());
@@ -546,7 +573,7 @@ pub fn run(ctx: &Ctx) -> (Acc, Report) {
             let k2 = keys.clone();
             let sof = move |ak: &str| k2.iter().find(|x| x.0 == ak).map(|x| x.1.clone());
             let vhb2 = if matches!(mu, Mutn::HostBucket) { Some("bkx") } else { vhb };
-            let reference = verify_v2(&req, now_ms / 1000, vhb2, &sof);
+            let reference = if matches!(mu, Mutn::PresignParamTwice(..)) { crate::sigref::Verdict::Reject("an authentication parameter given twice with two values") } else { verify_v2(&req, now_ms / 1000, vhb2, &sof) };
             let obs = observe(&cfg_for(keys), &req, body_one_frame(b""));
             a.nontrivial(fnv(id().as_bytes()));
             a.outcome(&format!("mutation ref={} impl={}", if reference.accepted() { "accept" } else { "reject" }, if obs.accepted_as.is_some() { "accept".to_owned() } else { format!("reject:{}", obs.verdict) }));
@@ -558,7 +585,7 @@ pub fn run(ctx: &Ctx) -> (Acc, Report) {
     });
     let rep = Report {
         level: "exploration",
-        rule: format!("{n_bases} requests signed by the reference V2 signer (4 methods x 6 paths x path-style|virtual-hosted x 28 query shapes incl. every documented sub-resource alone, pairs, and unlisted parameters x 7 x-amz-header shapes (incl. repeated lines in descending order, interleaved with another name) x Date|x-amz-date|both x Content-MD5/Type x header|presigned) ; presigned ones at clock = Expires-1s, Expires-1ms, Expires, +1ms, +999ms, +1s; every single-component mutation of the string-to-sign inputs (method, md5, type, date, each amz header value/removal/addition, each path byte, host bucket, each sub-resource value/removal, addition, each signature character, key id, provider secret, Expires) and 3 rewrites the signature does not bind. Oracle: reference verifier (R4) validated on the 4 documentation examples."),
+        rule: format!("{n_bases} requests signed by the reference V2 signer (4 methods x 6 paths x path-style|virtual-hosted x 28 query shapes incl. every documented sub-resource alone, pairs, and unlisted parameters x 7 x-amz-header shapes (incl. repeated lines in descending order, interleaved with another name) x Date|x-amz-date|both x Content-MD5/Type x header|presigned) ; presigned ones at clock = Expires-1s, Expires-1ms, Expires, +1ms, +999ms, +1s; every single-component mutation of the string-to-sign inputs (method, md5, type, date, each amz header value/removal/addition, each path byte, host bucket, each sub-resource value/removal, addition, each signature character, key id, provider secret, Expires; each of AWSAccessKeyId / Expires / Signature given twice with another value before or after the signed one) and 3 rewrites the signature does not bind. Oracle: reference verifier (R4) validated on the 4 documentation examples."),
         exhaustive: true,
         extra: json!({"histories": hist_n, "history_requests_executed": hist_steps, "history_rule": "all sequences of length 1..3 over 8 requests of this property's scheme(s) (two identities x honest / signed with the other identity's secret x two scopes) plus every pair led by a request of another scheme, on one service instance, single-threaded, fixed order; each verdict = the reference verdict of that request alone", "base_requests": n_bases}),
         assumptions: vec!["clock owned through the verif-hooks seam".into(), "sub-resource list = the documentation's list plus delete and the response-* overrides; `torrent` is not in the grid".into()],
